@@ -62,6 +62,13 @@ def run(ctx):
             # the key loop never errors on a key it does not know: every arm other than the ignore arm is a known member
             ctx.oblige("C06|known-arms|" + path, all(m["field"] for m in tab["members"]) and not tab["orphan_names"],
                        "%s: a recognised name is not stored into any member (%s)" % (path, tab["orphan_names"]), cfg=cfg, where=where, nontrivial=False)
+            # which names count as *known* is part of the property: in this configuration exactly the members the specification
+            # (filtered by the enabled features) lists are recognised -- a member that is recognised without its feature is not
+            # skipped any more (its value is type-checked and stored)
+            want_keys = sorted(str(w["key"]) for w in W.oracle_members(spec["requests"][path], F.features))
+            got_keys = sorted(str(k) for m in tab["members"] for k in [m["key"]] + list(m.get("aliases") or []))
+            want_all = sorted(set(want_keys) | {str(a) for w in W.oracle_members(spec["requests"][path], F.features) for a in w.get("aliases", [])})
+            ctx.oblige("C06|known-set|" + path, got_keys == want_all, "%s recognises the member names %s, the specification (with the enabled features %s) lists %s: other names must be skipped" % (path, got_keys, sorted(F.features), want_all), cfg=cfg, where=where)
             ctx.sample({"cfg": cfg, "type": path, "unknown_name": tab["unknown"], "unknown_value_consumed": tab["ignore_consumes"], "known": [m["key"] for m in tab["members"]]}, limit=14)
         ctx.floor("host map types", n, 7, cfg=cfg)
         # nothing stands between the message bytes and those decoders: the command switch hands the tail after the command
